@@ -221,7 +221,8 @@ construct_mpz_float(mpz_class& to, const From& from, Rounding_Dir dir) {
   if (from == n) {
     return V_EQ;
   }
-  if (from < 0) {
+  // rint() rounds according to the current FPU rounding direction.
+  if (from < n) {
     return round_lt_mpz<To_Policy>(to, dir);
   }
   else {
